@@ -304,12 +304,19 @@ impl<S: LexemeSink> StateMachineActions for Lexer<S> {
     fn finish_attr_name(&mut self, _context: &mut ParserContext<S>, _input: &[u8]) {
         if let Some(AttributeOutline {
             ref mut name,
+            ref mut value,
             ref mut raw_range,
-            ..
         }) = self.current_attr
         {
             *name = get_token_part_range!(self);
             *raw_range = *name;
+
+            // NOTE: until a value is parsed, the (empty) value is located right after the
+            // name, so that its position doesn't depend on where the input chunk starts.
+            *value = Range {
+                start: name.end,
+                end: name.end,
+            };
         }
     }
 
